@@ -5,8 +5,10 @@ package gtab
 import (
 	"seehuhn.de/go/postscript/funit"
 	"seehuhn.de/go/sfnt/glyph"
+	"seehuhn.de/go/sfnt/opentype/anchor"
 	"seehuhn.de/go/sfnt/opentype/classdef"
 	"seehuhn.de/go/sfnt/opentype/coverage"
+	"seehuhn.de/go/sfnt/opentype/markarray"
 )
 
 // checkSubtable: encodeLen() == len(encode()) and read(encode(x)) == x.
@@ -267,5 +269,49 @@ func VerifH_C08_lookuplist() {
 	for i := range ll {
 		verifAssert(*got[i].Meta == *ll[i].Meta, "lookup type, flags and mark filtering set survive")
 		verifAssert(verifSame(got[i].Subtables, ll[i].Subtables), "subtables survive")
+	}
+}
+
+// VerifH_C08_gpos2: round trips of the remaining implemented GPOS subtables: class pair adjustment (2.2),
+// cursive attachment (3.1), mark-to-base (4.1) and mark-to-mark (6.1) with symbolic glyph ids, classes,
+// value records and anchors.
+func VerifH_C08_gpos2() {
+	kind := verifChoose("type", 4)
+	an := func(tag string) anchor.Table {
+		return anchor.Table{X: funit.Int16(verifI16(tag + ".x")), Y: funit.Int16(verifI16(tag + ".y"))}
+	}
+	// anchors inside a base / mark2 array: an all-zero anchor means "no anchor" (offset 0 in the file)
+	ids := verifGIDs("cov", 2)
+	ids2 := verifGIDs("cov2", 2)
+	switch kind {
+	case 0:
+		haveSecond := verifChoose("second", 2) == 1
+		pa := func(tag string) *PairAdjust {
+			p := &PairAdjust{First: &GposValueRecord{XPlacement: funit.Int16(verifI16(tag + ".xp")), XAdvance: funit.Int16(verifI16(tag + ".xa"))}}
+			if haveSecond {
+				p.Second = &GposValueRecord{YPlacement: funit.Int16(verifI16(tag + ".yp2"))}
+			}
+			return p
+		}
+		x := &Gpos2_2{Cov: coverage.Set{ids[0]: true, ids[1]: true}, Class1: classdef.Table{ids[1]: 1}, Class2: classdef.Table{ids2[0]: 1},
+			Adjust: [][]*PairAdjust{{pa("a00"), pa("a01")}, {pa("a10"), pa("a11")}}}
+		checkSubtable(x, 2, true)
+	case 1:
+		x := &Gpos3_1{Cov: verifCov(ids), Records: []EntryExitRecord{{Entry: an("e0"), Exit: an("x0")}, {Entry: an("e1"), Exit: an("x1")}}}
+		checkSubtable(x, 3, true)
+	case 2:
+		c0, c1 := verifU16("class"), verifU16("class")
+		verifAssume(c0 <= 1 && c1 <= 1)
+		x := &Gpos4_1{MarkCov: verifCov(ids), BaseCov: verifCov(ids2),
+			MarkArray: []markarray.Record{{Class: c0, Table: an("m0")}, {Class: c1, Table: an("m1")}},
+			BaseArray: [][]anchor.Table{{an("b00"), an("b01")}, {an("b10"), an("b11")}}}
+		checkSubtable(x, 4, true)
+	default:
+		c0, c1 := verifU16("class"), verifU16("class")
+		verifAssume(c0 <= 1 && c1 <= 1)
+		x := &Gpos6_1{Mark1Cov: verifCov(ids), Mark2Cov: verifCov(ids2),
+			Mark1Array: []markarray.Record{{Class: c0, Table: an("m0")}, {Class: c1, Table: an("m1")}},
+			Mark2Array: [][]anchor.Table{{an("b00"), an("b01")}, {an("b10"), an("b11")}}}
+		checkSubtable(x, 6, true)
 	}
 }
